@@ -130,10 +130,12 @@ def run_pack(work, cfgname, faults, keep=False, healthy_repeat=False):
             ddf = dd.from_pandas(make_frame(variant), npartitions=2)
             fs = LocalFileSystem() if healthy_repeat else VerifFS(faults=faults)
             obs = {"outcome": None, "exc": None}
+            ncalls = 0
             try:
                 ret = ddf.pack_partitions_to_parquet(path, filesystem=fs, npartitions=npk, p=6, tempdir_format=fmt,
                                                      _retry_args=retry, overwrite=(overwrite or healthy_repeat))
                 obs["outcome"] = "returned"
+                ncalls = len(fs.calls) if not healthy_repeat else 0      # what the harness reads afterwards is not part of the run
                 try:
                     rc = ret.compute()
                     obs["returned_vals"] = sorted(int(v) for v in rc["val"].tolist())
@@ -145,7 +147,8 @@ def run_pack(work, cfgname, faults, keep=False, healthy_repeat=False):
     finally:
         uuid.uuid4 = old_uuid4
     if not healthy_repeat:
-        obs["calls"] = [(m, os.path.relpath(p, work) if p else None) for _, m, p in fs.calls]
+        allcalls = [(m, os.path.relpath(p, work) if p else None) for _, m, p in fs.calls]
+        obs["calls"] = allcalls[:ncalls] if obs["outcome"] == "returned" else allcalls
         obs["injected"] = [list(i) for i in fs.injected]
     obs["state"] = dataset_state(path, tmpbase)
     return obs
